@@ -2,6 +2,7 @@
 //! Every sub-command reads an operation script on stdin and prints one result line per op.
 mod alloc;
 mod codec;
+mod sim;
 mod util;
 
 #[global_allocator]
@@ -13,6 +14,7 @@ fn main() {
     let level = args.get(1).map(String::as_str).unwrap_or("");
     match level {
         "codec" => codec::run(),
+        "sim" => sim::run(),
         "profile" => println!("{}", if cfg!(debug_assertions) { "debug" } else { "release" }),
         _ => {
             eprintln!("usage: vharness <codec|...>");
